@@ -33,7 +33,9 @@ RULE = (
     "+-k ulp of 0, +-20, the clip thresholds of inner stages and the saturation points; thorough: also ALL float32 "
     "in [-100,100]) in float64 (all oracles) and float32 (finite/bounds/monotone), plus a lattice of y inside the "
     "open range for forward(inverse(y)); ParamTransform: every assignment of 7 transform types to the leaves of 3 "
-    "pytree shapes x value tables, eager and jit. An outcome is distinct if its (configuration, pass, regime bucket, "
+    "pytree shapes x value tables, eager and jit; the same for 3 layouts in which one key occurs in two or three entries "
+    "(what get_parameters() returns after several make_trainable calls on one parameter; routing judged per entry "
+    "POSITION) and for the plain-array + single-Transform call form. An outcome is distinct if its (configuration, pass, regime bucket, "
     "outcome class) is new; ParamTransform outcomes are distinct by (shape, assignment, values, rounded result)"
 )
 REQUIRED_COVER = [
@@ -47,6 +49,8 @@ REQUIRED_COVER = [
     "custom",
     "param_transform_jit",
     "param_transform_routing_distinguishable",
+    "param_transform_duplicate_keys",
+    "param_transform_plain_array",
     "float32_qualitative",
     "oracle_satisfiable_by_stable_reference",
 ]
@@ -853,6 +857,8 @@ def work(item):
         return work_sweep(item)
     if item["t"] == "param":
         return work_param(item)
+    if item["t"] == "param_plain":
+        return work_param_plain(item)
     raise ValueError(item)
 
 
@@ -922,6 +928,16 @@ def pt_desc(tname, entry, length):
     raise ValueError(tname)
 
 
+# layouts in which the SAME key occurs in several entries: get_parameters() returns exactly this after several
+# make_trainable("radius") calls on different views; every entry still owns its own transform (by POSITION)
+PT_DUP_LAYOUTS = [
+    (["radius", "radius"], [2, 3]),
+    (["radius", "HH_gNa", "radius"], [3, 1, 2]),
+    (["radius", "radius", "radius"], [3, 1, 2]),
+]
+PT_PLAIN_SHAPES = [[3], [2, 3]]
+
+
 def pt_items(tier):
     items = []
     vids = [0, 1] if tier == "quick" else [0, 1, 2, 3]
@@ -929,6 +945,16 @@ def pt_items(tier):
         types = PT_TYPES[:5] if (tier == "quick" and len(lengths) == 3) else PT_TYPES
         for assign in itertools.product(types, repeat=len(lengths)):
             items.append({"t": "param", "lengths": lengths, "assign": list(assign), "vids": vids})
+    for keys, lengths in PT_DUP_LAYOUTS:
+        n = len(lengths)
+        if tier == "quick":  # all assignments of pairwise different types + the same type with different bounds
+            assigns = list(itertools.permutations(PT_TYPES[:5], n)) + [(t,) * n for t in PT_TYPES[:5]]
+        else:
+            assigns = list(itertools.product(PT_TYPES, repeat=n))
+        for assign in assigns:
+            items.append({"t": "param", "keys": keys, "lengths": lengths, "assign": list(assign), "vids": vids})
+    for tname in PT_TYPES:
+        items.append({"t": "param_plain", "tname": tname, "vids": vids})
     return items
 
 
@@ -945,7 +971,7 @@ def _pt_leaf_judge(desc, p, col_mask=None):
     return tol
 
 
-def check_param(lengths, assign, vid, cache=None):
+def check_param(lengths, assign, vid, cache=None, keys=None):
     """Returns (violations, cover, digest_obj, evals).  `cache` lets one work item reuse the transform objects and the
     jitted functions for several value tables (same shapes -> one compilation)."""
     import jax
@@ -956,10 +982,14 @@ def check_param(lengths, assign, vid, cache=None):
     n = len(lengths)
     descs = [pt_desc(assign[j], j, lengths[j]) for j in range(n)]
     cache = {} if cache is None else cache
-    wit = {"t": "param", "lengths": lengths, "assign": assign, "vid": vid}
+    keys = list(PT_KEYS[:n]) if keys is None else list(keys)
+    dup = len(set(keys)) < n
+    shape_class = "duplicate_keys" if dup else "distinct_keys"
+    wit = {"t": "param", "lengths": lengths, "assign": assign, "vid": vid, "keys": keys}
 
     def v(rule, msg, **extra):
-        viol.append({"sig": dict({"rule": rule, "transform": "param_transform"}, **extra), "witness": wit, "msg": msg})
+        viol.append({"sig": dict({"rule": rule, "transform": "param_transform", "shape": shape_class}, **extra),
+                     "witness": wit, "msg": msg})
 
     vals, off = [], 0
     for j in range(n):
@@ -968,10 +998,10 @@ def check_param(lengths, assign, vid, cache=None):
     try:
         if "pt" not in cache:
             cache["tfs"] = [build(d, "jaxley") for d in descs]
-            cache["pt"] = ParamTransform([{PT_KEYS[j]: cache["tfs"][j]} for j in range(n)])
+            cache["pt"] = ParamTransform([{keys[j]: cache["tfs"][j]} for j in range(n)])
             cache["jf"], cache["ji"] = jax.jit(cache["pt"].forward), jax.jit(cache["pt"].inverse)
         tfs, pt = cache["tfs"], cache["pt"]
-        params = [{PT_KEYS[j]: jnp.asarray(vals[j])} for j in range(n)]
+        params = [{keys[j]: jnp.asarray(vals[j])} for j in range(n)]
         fwd = pt.forward(params)
         back = pt.inverse(fwd)
         fwd_j = cache["jf"](params)
@@ -983,7 +1013,7 @@ def check_param(lengths, assign, vid, cache=None):
 
     def structure_ok(tree):
         return (isinstance(tree, list) and len(tree) == n and all(
-            isinstance(tree[j], dict) and list(tree[j].keys()) == [PT_KEYS[j]] and np.shape(tree[j][PT_KEYS[j]]) == (lengths[j],)
+            isinstance(tree[j], dict) and list(tree[j].keys()) == [keys[j]] and np.shape(tree[j][keys[j]]) == (lengths[j],)
             for j in range(n)))
 
     for name, tree in (("forward", fwd), ("inverse", back), ("forward_jit", fwd_j), ("inverse_jit", back_j)):
@@ -991,12 +1021,12 @@ def check_param(lengths, assign, vid, cache=None):
             v("structure", f"{name} returned a different pytree: {jax.tree_util.tree_structure(tree)}", call=name)
             return viol, cover, None, 4
     for j in range(n):  # inputs untouched
-        if not np.array_equal(np.asarray(params[j][PT_KEYS[j]]), vals[j]):
+        if not np.array_equal(np.asarray(params[j][keys[j]]), vals[j]):
             v("input_mutated", f"leaf {j} of the input changed", call="forward")
     all_bitwise = True
     with np.errstate(all="ignore"):
         for j in range(n):
-            key = PT_KEYS[j]
+            key = keys[j]
             got = np.asarray(fwd[j][key])
             own = np.asarray(tfs[j].forward(params[j][key]))
             if not np.array_equal(got, own, equal_nan=True):
@@ -1015,6 +1045,8 @@ def check_param(lengths, assign, vid, cache=None):
                     other = np.asarray(tfs[i].forward(params[j][key]))
                     if other.shape == own.shape and not np.array_equal(other, own, equal_nan=True):
                         cover.add("param_transform_routing_distinguishable")
+                        if keys[i] == keys[j]:  # a lookup by NAME instead of by position would be visible here
+                            cover.add("param_transform_duplicate_keys")
                 except Exception:
                     pass
             # leafwise round trip
@@ -1035,7 +1067,7 @@ def check_param(lengths, assign, vid, cache=None):
                           leaf=descs[j]["kind"])
     if all_bitwise:
         cover.add("param_transform_jit_bitwise_equal")
-    dig = [lengths, assign, vid, [[round(float(x), 9) for x in np.asarray(fwd[j][PT_KEYS[j]])] for j in range(n)]]
+    dig = [keys, lengths, assign, vid, [[round(float(x), 9) for x in np.asarray(fwd[j][keys[j]])] for j in range(n)]]
     return viol, cover, dig, 4
 
 
@@ -1043,13 +1075,89 @@ def work_param(item):
     res = {"evals": 0, "digests": [], "cover": [], "refusals": [], "violations": []}
     cache = {}
     for vid in item["vids"]:
-        viol, cover, dig, ev = check_param(item["lengths"], item["assign"], vid, cache)
+        viol, cover, dig, ev = check_param(item["lengths"], item["assign"], vid, cache, item.get("keys"))
         res["evals"] += ev
         res["cover"] += sorted(cover)
         res["violations"] += viol
         if dig is not None:
             res["digests"].append(digest(dig))
-    res["sample"] = {"param_transform": item["assign"], "lengths": item["lengths"], "value_tables": item["vids"]}
+    res["cover"] = sorted(set(res["cover"]))
+    res["sample"] = {"param_transform": item["assign"], "keys": item.get("keys", PT_KEYS[:len(item["lengths"])]),
+                     "lengths": item["lengths"], "value_tables": item["vids"]}
+    return res
+
+
+def check_plain(tname, bi, shape, vid, cache=None):
+    """ParamTransform(single Transform) applied to a plain array (the `| ArrayLike` call form)."""
+    import jax
+    import jax.numpy as jnp
+    from jaxley.optimize.transforms import ParamTransform
+
+    viol, cover = [], set()
+    cache = {} if cache is None else cache
+    desc = pt_desc(tname, bi, 3)
+    wit = {"t": "param_plain", "tname": tname, "bi": bi, "shape": shape, "vid": vid}
+
+    def v(rule, msg, **extra):
+        viol.append({"sig": dict({"rule": rule, "transform": "param_transform", "shape": "plain_array"}, **extra),
+                     "witness": wit, "msg": msg})
+
+    nel = int(np.prod(shape))
+    x = np.asarray(PT_VALUES[vid][:nel], dtype=np.float64).reshape(shape)
+    ck = (bi, tuple(shape))
+    try:
+        if ck not in cache:
+            tf = build(desc, "jaxley")
+            pt = ParamTransform(tf)
+            cache[ck] = (tf, pt, jax.jit(pt.forward), jax.jit(pt.inverse))
+        tf, pt, jf, ji = cache[ck]
+        xa = jnp.asarray(x)
+        fwd, fwd_j = pt.forward(xa), jf(xa)
+        back, back_j = pt.inverse(fwd), ji(fwd)
+        own, ownb = tf.forward(xa), tf.inverse(fwd)
+    except Exception as e:
+        v("raises", f"{type(e).__name__}: {e}"[:300], error=type(e).__name__)
+        return viol, cover, None, 1
+    cover.add("param_transform_plain_array")
+    for name, r in (("forward", fwd), ("inverse", back), ("forward_jit", fwd_j), ("inverse_jit", back_j)):
+        if not hasattr(r, "shape") or tuple(np.shape(r)) != tuple(shape):
+            v("structure", f"{name} of a plain array of shape {shape} returned {type(r).__name__} {np.shape(r)}", call=name)
+            return viol, cover, None, 4
+    got, gotb = np.asarray(fwd), np.asarray(back)
+    with np.errstate(all="ignore"):
+        if not np.array_equal(got, np.asarray(own), equal_nan=True):
+            v("routing", f"forward({x.tolist()}) = {got.tolist()} but {_describe(desc)} gives {np.asarray(own).tolist()}", call="forward")
+        if not np.array_equal(gotb, np.asarray(ownb), equal_nan=True):
+            v("routing", f"inverse = {gotb.tolist()} but {_describe(desc)} gives {np.asarray(ownb).tolist()}", call="inverse")
+        tol = _pt_leaf_judge(desc, x)
+        err = np.abs(gotb - x)
+        rep = tol <= 0.1 * (1 + np.abs(x))
+        if np.any(rep & ~(err <= tol)):
+            v("round_trip", f"inverse(forward(p)) ({_describe(desc)}): p={x.tolist()} -> {gotb.tolist()}", leaf=desc["kind"])
+        st = stages_of(desc)
+        for nm, e_, j_ in (("forward", got, np.asarray(fwd_j)), ("inverse", gotb, np.asarray(back_j))):
+            if not np.array_equal(e_, j_, equal_nan=True):
+                lim = 16 * L.ulp(np.maximum(np.abs(e_), st[-1].magb if st else 0.0))
+                if not np.all(np.abs(e_ - j_) <= lim):
+                    v("jit_mismatch", f"{nm} ({_describe(desc)}): eager {e_.tolist()} vs jit {j_.tolist()}", call=nm, leaf=desc["kind"])
+    dig = ["plain", tname, bi, shape, vid, [round(float(t), 9) for t in got.ravel()]]
+    return viol, cover, dig, 4
+
+
+def work_param_plain(item):
+    res = {"evals": 0, "digests": [], "cover": [], "refusals": [], "violations": []}
+    cache = {}
+    for bi in range(len(BOUNDS)):
+        for shape in PT_PLAIN_SHAPES:
+            for vid in item["vids"]:
+                viol, cover, dig, ev = check_plain(item["tname"], bi, shape, vid, cache)
+                res["evals"] += ev
+                res["cover"] += sorted(cover)
+                res["violations"] += viol
+                if dig is not None:
+                    res["digests"].append(digest(dig))
+    res["cover"] = sorted(set(res["cover"]))
+    res["sample"] = {"param_transform_plain_array": item["tname"], "shapes": PT_PLAIN_SHAPES, "value_tables": item["vids"]}
     return res
 
 
@@ -1089,7 +1197,10 @@ def explore(ctx):
 
 def replay(w):
     if w["t"] == "param":
-        viol, _, _, _ = check_param(w["lengths"], w["assign"], w["vid"])
+        viol, _, _, _ = check_param(w["lengths"], w["assign"], w["vid"], None, w.get("keys"))
+        return viol
+    if w["t"] == "param_plain":
+        viol, _, _, _ = check_plain(w["tname"], w["bi"], w["shape"], w["vid"])
         return viol
     r = run_points(w["desc"], w["space"], w["dtype"], w["points"], "jaxley", w.get("column", 0), verify=False, fill=False)
     return [{"sig": v["sig"], "witness": v["witness"], "msg": v["msg"]} for v in r["violations"]]
